@@ -47,7 +47,7 @@ var JsrRes = []rePool{
 	{"\\d\\d", []string{"42"}, []string{"4", "ab"}, []string{"423"}},
 }
 
-var Lits = []string{"a", "b", "users", "x1", "a.b", "abcdef", "v1", "c"}
+var Lits = []string{"a", "b", "users", "x1", "a.b", "abcdef", "v1", "c", "my docs", "caf\xc3\xa9", "(x)", "100%"}
 var Verbs = []string{"run", "stop"}
 var Suffixes = []string{".foo", "_x", "-bar"}
 var VarVals = []string{"1", "42", "abc", "x", "a.b", "q.foo", "y_x", "Z9", "\xc3\xa9", "a:b", "%41", " ", "b", "users", "a", "z-bar", "12:run", "{v}", "*"}
